@@ -1879,9 +1879,16 @@ fn eval_assign_update(
 ) -> Result<(), (RestoreValues, EvalError)> {
     let var_name = &variable.name;
 
+    // Pop the operand first and put it back on every error path, so
+    // the failed step always owns exactly the values it restores.
+    let rhs_value = env.pop_value().expect(&format!(
+        "Popped an empty value stack for `{}`",
+        op.as_src()
+    ));
+
     let Some(var_value) = get_var(variable, env) else {
         return Err((
-            RestoreValues(vec![]),
+            RestoreValues(vec![rhs_value]),
             EvalError::Exception(ExceptionInfo {
                 position: variable.position.clone(),
                 message: ErrorMessage(vec![Text(format!(
@@ -1892,7 +1899,7 @@ fn eval_assign_update(
     };
     let Value_::Int(var_value_num) = var_value.as_ref() else {
         return Err((
-            RestoreValues(vec![]),
+            RestoreValues(vec![rhs_value]),
             EvalError::Exception(ExceptionInfo {
                 position: position.clone(),
                 message: format_type_error(&TypeName { text: "Int".into() }, &var_value, env),
@@ -1900,10 +1907,6 @@ fn eval_assign_update(
         ));
     };
 
-    let rhs_value = env.pop_value().expect(&format!(
-        "Popped an empty value stack for `{}`",
-        op.as_src()
-    ));
     let Value_::Int(rhs_num) = rhs_value.as_ref() else {
         return Err((
             RestoreValues(vec![rhs_value.clone()]),
@@ -1935,9 +1938,14 @@ fn eval_assign(
     variable: &Symbol,
 ) -> Result<(), (RestoreValues, EvalError)> {
     let var_name = &variable.name;
+
+    let expr_value = env
+        .pop_value()
+        .expect("Popped an empty value stack for let value");
+
     if !env.current_frame_mut().bindings.has(variable.interned_id) {
         return Err((
-            RestoreValues(vec![]),
+            RestoreValues(vec![expr_value]),
             EvalError::Exception(ExceptionInfo {
                 position: variable.position.clone(),
                 message: ErrorMessage(vec![Text(format!(
@@ -1946,10 +1954,6 @@ fn eval_assign(
             }),
         ));
     }
-
-    let expr_value = env
-        .pop_value()
-        .expect("Popped an empty value stack for let value");
 
     env.stack
         .0
@@ -7688,9 +7692,20 @@ fn eval_struct_value(
     type_symbol: TypeSymbol,
     field_exprs: &[(Symbol, Rc<Expression>)],
 ) -> Result<(), (RestoreValues, EvalError)> {
+    // Pop all the field values up front, so every error path can put
+    // them back in the order they were pushed.
+    let mut field_values = vec![];
+    for _ in field_exprs {
+        field_values.push(
+            env.pop_value()
+                .expect("Value stack should have sufficient items for the struct literal"),
+        );
+    }
+    let saved_values: Vec<Value> = field_values.iter().rev().cloned().collect();
+
     let Some(type_info) = env.get_type_def(&type_symbol.name) else {
         return Err((
-            RestoreValues(vec![]),
+            RestoreValues(saved_values),
             EvalError::Exception(ExceptionInfo {
                 position: type_symbol.position.clone(),
                 message: ErrorMessage(vec![Text(format!(
@@ -7707,7 +7722,7 @@ fn eval_struct_value(
         ))]);
 
         return Err((
-            RestoreValues(vec![]),
+            RestoreValues(saved_values),
             EvalError::Exception(ExceptionInfo {
                 position: type_symbol.position.clone(),
                 message,
@@ -7724,17 +7739,6 @@ fn eval_struct_value(
     }
 
     let mut fields = vec![];
-
-    // Pop all the field values up front, so every error path can put
-    // them back in the order they were pushed.
-    let mut field_values = vec![];
-    for _ in field_exprs {
-        field_values.push(
-            env.pop_value()
-                .expect("Value stack should have sufficient items for the struct literal"),
-        );
-    }
-    let saved_values: Vec<Value> = field_values.iter().rev().cloned().collect();
 
     let type_bindings = env.current_frame().type_bindings.clone();
     for ((field_sym, field_expr), field_value) in field_exprs.iter().zip(field_values) {
